@@ -146,7 +146,7 @@ func (g *Gen) Emit(line string, nontrivial bool, tags ...string) string {
 			g.st.Distinct++
 		}
 	}
-	if mirrorOps[op] {
+	if mirrorOps[op] && (mirrorFilter[op] == nil || mirrorFilter[op](line)) {
 		g.Emit("g"+line, false, "generated-code")
 	}
 	if g.nsampl < 12 && (g.st.Ops%97 == 1 || g.st.Ops < 4) && len(line) < 400 {
@@ -239,6 +239,10 @@ func atoi64(s string) int64 {
 // mirrorOps: ops that are also run (as g<op>) against the Lean code regenerated from source by go2lean, which
 // validates the translator on every input the hand model is validated on.
 var mirrorOps = map[string]bool{}
+
+// mirrorFilter: optional per-op predicate; ops for which the generated code (immutable lists, `++` at the end) would be
+// quadratic in a huge output are not mirrored
+var mirrorFilter = map[string]func(line string) bool{}
 
 func mirror(ops ...string) {
 	for _, o := range ops {
